@@ -28,3 +28,15 @@ package gobl
 //@   trusted copies the error object; result is never nil
 //@   requires e != nil
 //@   ensures r != nil
+//
+//@ func (e *Envelope) Validate() (err)
+//@   trusted X-VALIDATION: a validated envelope has a header, no nil list entries and only real signatures (validation walker; Signature.UnmarshalJSON)
+//@   requires e != nil
+//@   ensures err == nil ==> head.wfHeader(e.Head) && sigsOK(e)
+//
+//@ func (e *Envelope) Signed() (r)
+//@   requires e != nil
+//@   ensures r <==> len(e.Signatures) > 0
+//
+// verifiedBy: every signature of the envelope verifies under the key and covers the envelope's header
+//@ pred verifiedBy(e *Envelope, key *dsig.PublicKey) bool = e != nil && len(e.Signatures) > 0 && (forall i int :: 0 <= i && i < len(e.Signatures) ==> dsig.jwsValid(e.Signatures[i], key) && dsig.payloadOK(e.Signatures[i]) && head.contains(e.Head, dsig.signedHeader(e.Signatures[i])))
